@@ -97,16 +97,21 @@ def run(db, chk):
             outs = {}
             for mode, threads in (("seq", 0), ("par", 4)):
                 ws = run_router(ap, sc, Obj(OP, {"m_threads_count": threads}))
-                n_sc += 1
-                if len(ws) != 1:
-                    raise AnalysisBroken("C04: the router forked on an undetermined comparison in "
-                                         "scenario %s" % sc.label())
-                w = ws[0]
-                if w.threw:
-                    raise AnalysisBroken("C04: router threw %s" % w.threw)
-                o = outcome(w)
+                n_sc += len(ws)
+                # (a fork means the code compared a value it had not written in this call: every
+                # outcome must satisfy the specification)
+                bad = []
+                o = None
+                for w in ws:
+                    if w.threw:
+                        raise AnalysisBroken("C04: router threw %s" % w.threw)
+                    o = outcome(w)
+                    bad = check_outcome(sc, o)
+                    if bad:
+                        if len(ws) > 1:
+                            bad.append("(on one of %d outcomes that depend on state left by a previous call)" % len(ws))
+                        break
                 outs[mode] = o
-                bad = check_outcome(sc, o)
                 if bad:
                     fails[mode] += 1
                     if fails[mode] <= 6:
